@@ -239,7 +239,14 @@ func main() {
 			items = append(items, item{a, l})
 		}
 	}
-	var next int64 = -1
+	// the smallest rings first and in order, so that the example reported for a finding is
+	// the same minimal one on every run; the rest in parallel
+	first := 0
+	for first < len(items) && items[first].a.n <= 2 {
+		runItem(items[first].a, items[first].label, strats)
+		first++
+	}
+	var next int64 = int64(first) - 1
 	var wg sync.WaitGroup
 	for w := 0; w < runtime.NumCPU(); w++ {
 		wg.Add(1)
@@ -276,9 +283,9 @@ func panicClass(p interface{}) string {
 		return strings.ReplaceAll(digits.ReplaceAllString(s, ""), " ", "-")
 	}
 	s = digits.ReplaceAllString(s, "")
-	f := strings.Fields(s)
-	if len(f) > 6 {
-		f = f[:6]
+	f := strings.Fields(strings.NewReplacer(".", " ", "=", " ", ",", " ").Replace(s))
+	if len(f) > 4 {
+		f = f[:4]
 	}
 	return strings.Join(f, "-")
 }
@@ -307,6 +314,7 @@ func runItem(a arrangement, label int, strats []strategy) {
 		tokens  []string
 		lookups []string
 		starts  []int // reference start index per lookup
+		class   []int // 0 below the smallest, 1 above the largest, 2 equal to a ring token, 3 between
 	}
 	var rings []*built
 	for pi := range partSpecs {
@@ -345,7 +353,18 @@ func runItem(a arrangement, label int, strats []strategy) {
 		}
 		b.lookups = ps.lookups(b.tokens)
 		for _, lk := range b.lookups {
-			b.starts = append(b.starts, refcass.FirstTokenIndex(b.tokens, lk, ps.cmp))
+			start := refcass.FirstTokenIndex(b.tokens, lk, ps.cmp)
+			b.starts = append(b.starts, start)
+			switch {
+			case ps.cmp(lk, b.tokens[0]) < 0:
+				b.class = append(b.class, 0)
+			case ps.cmp(lk, b.tokens[T-1]) > 0:
+				b.class = append(b.class, 1)
+			case ps.cmp(lk, b.tokens[start]) == 0:
+				b.class = append(b.class, 2)
+			default:
+				b.class = append(b.class, 3)
+			}
 		}
 		rings = append(rings, b)
 	}
@@ -425,7 +444,7 @@ func runItem(a arrangement, label int, strats []strategy) {
 				c.panics++
 				cls := panicClass(pan)
 				key := sName + ":replicaMap-panics:" + cls
-				r.Violation(key, fmt.Sprintf("%s %s (%s): panic: %v", ringID, st.name, b.ps.short, pan), replay)
+				viol(key, func() string { return fmt.Sprintf("%s %s (%s): panic: %v", ringID, st.name, b.ps.short, pan) }, replay)
 				continue
 			}
 			if !ok {
@@ -437,12 +456,12 @@ func runItem(a arrangement, label int, strats []strategy) {
 				want := exp[start]
 				c.evals++
 				c.byStrategy[sIdx]++
-				switch {
-				case b.ps.cmp(lk, b.tokens[0]) < 0:
+				switch b.class[li] {
+				case 0:
 					c.lookupsBelow++
-				case b.ps.cmp(lk, b.tokens[T-1]) > 0:
+				case 1:
 					c.lookupsAbove++
-				case b.ps.cmp(lk, b.tokens[start]) == 0:
+				case 2:
 					c.lookupsEqual++
 				default:
 					c.lookupsBetween++
@@ -481,37 +500,26 @@ func runItem(a arrangement, label int, strats []strategy) {
 				}
 				replay["lookup"] = lk
 				dup := false
-				seen := map[int]bool{}
+				var seen, ws uint // bit sets over node numbers (bit 0: a nil host)
 				for _, g := range got {
-					if seen[g] {
+					if seen&(1<<uint(g+1)) != 0 {
 						dup = true
 					}
-					seen[g] = true
+					seen |= 1 << uint(g+1)
 				}
 				if dup {
 					// one root cause; its consequences (a real replica pushed out, list longer than the
 					// cluster) are not reported separately for the same lookup
-					r.Violation(sName+":node-listed-twice", detail(), replay)
+					viol(sName+":node-listed-twice", detail, replay)
 					continue
 				}
 				if len(got) > n {
-					r.Violation(sName+":more-replicas-than-nodes", detail(), replay)
+					viol(sName+":more-replicas-than-nodes", detail, replay)
 				}
-				ws := map[int]bool{}
 				for _, e := range want {
-					ws[e] = true
+					ws |= 1 << uint(e+1)
 				}
-				missing, extra := false, false
-				for e := range ws {
-					if !seen[e] {
-						missing = true
-					}
-				}
-				for g := range seen {
-					if !ws[g] {
-						extra = true
-					}
-				}
+				missing, extra := ws&^seen != 0, seen&^ws != 0
 				if missing || extra {
 					kind := "replica-set-differs"
 					switch {
@@ -520,14 +528,14 @@ func runItem(a arrangement, label int, strats []strategy) {
 					case extra && !missing:
 						kind = "non-replica-listed"
 					}
-					r.Violation(sName+":"+kind+":"+feat(), detail(), replay)
+					viol(sName+":"+kind+":"+feat(), detail, replay)
 				}
 				owner := a.owners[start]
 				ownerHolds := st.simple && st.rf > 0 || !st.simple && st.dcs[eps[owner].DC] > 0
 				if ownerHolds && (len(got) == 0 || got[0] != owner) {
-					r.Violation(sName+":range-owner-not-first:"+feat(), detail(), replay)
+					viol(sName+":range-owner-not-first:"+feat(), detail, replay)
 				}
-				if r.NeedSample() && len(want) >= 3 && T > n && eps[want[0]].DC != eps[want[len(want)-1]].DC && b.ps.short == "m3" && li == 2 && label%7 == 3 {
+				if len(want) >= 3 && T > n && li == 2 && label%7 == 3 && b.ps.short == "m3" && eps[want[0]].DC != eps[want[len(want)-1]].DC && r.NeedSample() {
 					r.Sample(map[string]interface{}{"ring_owners": a.owners, "nodes": eps, "setting": st.name, "ring_tokens": b.tokens, "lookup": lk, "cassandra": want, "gocql": got})
 				}
 			}
@@ -535,6 +543,18 @@ func runItem(a arrangement, label int, strats []strategy) {
 	}
 	// merge counters
 	addAll(&c)
+}
+
+// viol reports a violation; the detail text and replay are only built the first time a
+// key is seen (report.Run keeps the first occurrence per key, later ones are only counted).
+var firstSeen sync.Map
+
+func viol(key string, detail func() string, replay interface{}) {
+	if _, dup := firstSeen.LoadOrStore(key, true); dup {
+		r.Violation(key, "", nil)
+		return
+	}
+	r.Violation(key, detail(), replay)
 }
 
 var cmu sync.Mutex
